@@ -59,28 +59,28 @@ class DomainParser:
                 continue
 
             pddl_type = types[index + 1]
-            parent_type = pddl_types.get(
-                pddl_type, PDDLType(name=pddl_type, parent=ObjectType)
+            parent_type = (
+                ObjectType
+                if pddl_type == "object"
+                else pddl_types.setdefault(
+                    pddl_type, PDDLType(name=pddl_type, parent=ObjectType)
+                )
             )
-            pddl_types.update(
-                {
-                    descendant_typ_name: PDDLType(
+            for descendant_typ_name in same_types_objects:
+                if descendant_typ_name in pddl_types:
+                    # The type was already referenced as a parent, keep the object and set its real parent.
+                    pddl_types[descendant_typ_name].parent = parent_type
+                else:
+                    pddl_types[descendant_typ_name] = PDDLType(
                         name=descendant_typ_name, parent=parent_type
                     )
-                    for descendant_typ_name in same_types_objects
-                }
-            )
+
             same_types_objects = []
             index += 2
             continue
 
-        if len(same_types_objects) > 0:
-            pddl_types.update(
-                {
-                    type_name: PDDLType(name=type_name, parent=ObjectType)
-                    for type_name in same_types_objects
-                }
-            )
+        for type_name in same_types_objects:
+            pddl_types.setdefault(type_name, PDDLType(name=type_name, parent=ObjectType))
 
         pddl_types["object"] = ObjectType
         self.logger.debug(
